@@ -1586,3 +1586,142 @@ def c_range_bounds(m, st, f, a):
     if kind == 'RangeInclusive': return _bound('Included', fld(0)) if start else _bound('Included', fld(1))
     if kind == 'RangeFull': return _bound('Unbounded', None)
     raise Inconclusive('RangeBounds of ' + f)
+
+
+# ---------------------------------------------------------------------------------------------- DashMap (finite map key -> heap cell)
+# insert on an occupied key replaces the cell and FREES the old one: references obtained earlier (cached_source.rs extends
+# their lifetime with a transmute) become dangling - reading through them is reported as use-after-free.
+class DashMapV:
+    rtype = 'DashMap'
+
+    def __init__(self): self.entries = []; self.lock = None      # entries: [(key value, Cell)]
+
+    def clone_with(self, cl):
+        d = DashMapV(); d.entries = [(cl.val(k), cl.cell(c)) for k, c in self.entries]; d.lock = cl.val(self.lock); return d
+
+
+def _dm(x):
+    v = sv(x)
+    if not isinstance(v, DashMapV): raise Inconclusive('expected a DashMap, got %r' % (v,))
+    return v
+
+
+def _dm_find(m, st, dm, key):
+    for i, (k, c) in enumerate(dm.entries):
+        if key_eq(m, st, k, key): return i
+    return None
+
+
+@contract(r'^<Arc<DashMap<.*>> as Default>::default$|^<DashMap<.*> as Default>::default$|^DashMap::<.*>::(new|default|with_hasher)$', 2)
+def c_dm_default(m, st, f, a):
+    d = DashMapV()
+    return Ref(Cell(d, tag='heap')) if f.startswith('<Arc<') else d
+
+
+@contract(r'^DashMap::<.*>::get::<', 2)
+def c_dm_get(m, st, f, a):
+    _sched(m, st, 'dm_get', a[0])
+    dm = _dm(a[0]); i = _dm_find(m, st, dm, a[1])
+    if i is None: return none()
+    h = m.hooks.get('dm_guard')
+    if h: h(m, st, 'read', a[0], dm.entries[i][1])
+    return some(Ref(dm.entries[i][1], (), meta=('dmref', 'read')))
+
+
+@contract(r'^DashMap::<.*>::insert$', 2)
+def c_dm_insert(m, st, f, a):
+    _sched(m, st, 'dm_insert', a[0])
+    dm = _dm(a[0]); i = _dm_find(m, st, dm, a[1])
+    if i is None:
+        dm.entries.append((copy_val(sv(a[1])) if isinstance(a[1], Ref) else a[1], Cell(a[2], tag='dmval'))); return none()
+    old = dm.entries[i][1]
+    dm.entries[i] = (dm.entries[i][0], Cell(a[2], tag='dmval'))
+    h = m.hooks.get('dm_replace')
+    if h: h(m, st, a[0], old)
+    oldv = old.v
+    old.freed = True
+    return some(oldv)
+
+
+@contract(r'^DashMap::<.*>::entry$', 2)
+def c_dm_entry(m, st, f, a):
+    _sched(m, st, 'dm_entry', a[0])
+    dm = _dm(a[0]); i = _dm_find(m, st, dm, a[1])
+    h = m.hooks.get('dm_guard')
+    if i is None:
+        if h: h(m, st, 'write', a[0], None)
+        return Enum('Entry', 1, {1: Agg([Agg([a[0], a[1]], 'VacantEntry')])})
+    if h: h(m, st, 'write', a[0], dm.entries[i][1])
+    return Enum('Entry', 0, {0: Agg([Agg([a[0], Ref(dm.entries[i][1])], 'OccupiedEntry')])})
+
+
+@contract(r'^(dashmap::)?(mapref::entry::)?OccupiedEntry::<.*>::(get|get_mut|into_ref)$', 2)
+def c_dm_occ_get(m, st, f, a):
+    e = sv(a[0]); return e.f[1]
+
+
+@contract(r'^(dashmap::)?(mapref::entry::)?VacantEntry::<.*>::insert$', 2)
+def c_dm_vac_insert(m, st, f, a):
+    _sched(m, st, 'dm_vacant_insert', a[0].f[0])
+    e = a[0]; dm = _dm(e.f[0])
+    i = _dm_find(m, st, dm, e.f[1])
+    c = Cell(a[1], tag='dmval')
+    if i is None: dm.entries.append((e.f[1], c))
+    else:
+        old = dm.entries[i][1]; dm.entries[i] = (dm.entries[i][0], c); old.freed = True
+    return Ref(c, (), meta=('dmref', 'write'))
+
+
+@contract(r'^<(dashmap::)?mapref::(one::Ref(Mut)?|entry::\w+)<.*> as Deref(Mut)?>::deref(_mut)?$', 2)
+def c_dm_ref_deref(m, st, f, a):
+    return deref(a[0])
+
+
+@contract(r'^DashMap::<.*>::(len)$', 2)
+def c_dm_len(m, st, f, a): return IntV(len(_dm(a[0]).entries), 'usize')
+
+
+@contract(r'^DashMap::<.*>::(contains_key)::<', 2)
+def c_dm_contains(m, st, f, a): return _dm_find(m, st, _dm(a[0]), a[1]) is not None
+
+
+@contract(r'^DashMap::<.*>::(remove)::<', 2)
+def c_dm_remove(m, st, f, a):
+    dm = _dm(a[0]); i = _dm_find(m, st, dm, a[1])
+    if i is None: return none()
+    k, c = dm.entries.pop(i); c.freed = True
+    h = m.hooks.get('dm_replace')
+    if h: h(m, st, a[0], c)
+    return some(Agg([k, c.v]))
+
+
+@contract(r'^DashMap::<.*>::clear$', 2)
+def c_dm_clear(m, st, f, a):
+    dm = _dm(a[0])
+    for k, c in dm.entries:
+        c.freed = True
+        h = m.hooks.get('dm_replace')
+        if h: h(m, st, a[0], c)
+    dm.entries[:] = []; return UNIT
+
+
+# ---------------------------------------------------------------------------------------------- FxHasher (finish = uninterpreted function of the written stream)
+@contract(r'^<(FxHasher|rustc_hash::FxHasher|DefaultHasher|std::collections::hash_map::DefaultHasher) as Default>::default$|^(FxHasher|DefaultHasher)::(default|new)$', 2)
+def c_fxhasher_default(m, st, f, a):
+    from .textmodel import HasherV
+    return HasherV()
+
+
+_finish_memo = {}
+
+
+@contract(r'^<.* as Hasher>::finish$', 3)
+def c_hasher_finish(m, st, f, a):
+    from .textmodel import HasherV
+    h = sv(a[0])
+    if not isinstance(h, HasherV): return NotImplemented
+    key = repr(h.log)
+    v = _finish_memo.get(key)
+    if v is None:
+        v = z3.BitVec('fxhash_%d' % len(_finish_memo), 64); _finish_memo[key] = v
+    return IntV(v, 'u64')
